@@ -1,3 +1,991 @@
+//! C16 - Form: typed, model and wire representations of a value all agree.
+//!
+//! Engine E4 (bounded exhaustive enumeration). A battery of types deriving `swimos_form::Form`
+//! is compiled in (`battery.rs`); for every type every instance with field values from small
+//! pools is enumerated smallest-first and checked against:
+//!
+//! * model:   `try_from_value(as_value(x)) == x`, same for `into_value` / `try_convert`;
+//! * recon:   `parse_recognize::<T>(print(x)) == x` for the three printers;
+//! * agree:   for every text of a per-type text set (printed forms, every single-element
+//!            deletion / duplication / transposition / retagging / rekeying / replacement on the
+//!            `Value` level, every single-token deletion / duplication / transposition on the raw
+//!            text, and the printed forms of all *other* battery types) reading directly with the
+//!            recognizer agrees with parsing to `Value` and converting - on acceptance and value;
+//! * msgpack: write + read back == x; reading the model's encoding == x; direct read agrees with
+//!            read-as-`Value`-then-convert (also for the mutated values); the reader gives the same
+//!            result on every 1-cut / 2-cut segmentation of the buffer (a non-contiguous `Buf`);
+//!            every strict prefix is rejected without a panic.
+
+mod battery;
+mod mutate;
+
+use battery::*;
+use bytes::Buf;
+use serde_json::json;
+use std::collections::{BTreeMap, HashSet};
+use std::fmt::Debug;
+use std::panic::{catch_unwind, AssertUnwindSafe};
+use std::sync::atomic::{AtomicBool, AtomicU64, Ordering};
+use std::sync::Mutex;
+use std::time::Instant;
+use swimos_form::read::ReadError;
+use swimos_form::write::StructuralWritable;
+use swimos_form::Form;
+use swimos_model::Value;
+use swimos_msgpack::{read_from_msg_pack, MsgPackInterpreter, MsgPackReadError};
+use swimos_recon::parser::{parse_recognize, ParseError};
+use swimos_recon::{print_recon, print_recon_compact, print_recon_pretty};
+use vcommon::{Ctx, Leg};
+
+// ---------------------------------------------------------------------------------- outcomes
+
+#[derive(Debug, Clone, PartialEq)]
+enum Out<T> {
+    Ok(T),
+    Err(String, String),
+    Panic(String),
+}
+
+impl<T: Debug> Out<T> {
+    fn class(&self) -> String {
+        match self {
+            Out::Ok(_) => "Ok".into(),
+            Out::Err(c, _) => format!("Err({})", c),
+            Out::Panic(_) => "PANIC".into(),
+        }
+    }
+    fn show(&self) -> String {
+        match self {
+            Out::Ok(t) => format!("Ok({:?})", t),
+            Out::Err(_, full) => format!("Err({})", full),
+            Out::Panic(m) => format!("PANIC({})", m),
+        }
+    }
+    fn is_ok(&self) -> bool {
+        matches!(self, Out::Ok(_))
+    }
+}
+
+fn variant_name(dbg: &str) -> String {
+    dbg.chars().take_while(|c| c.is_alphanumeric() || *c == '_').collect()
+}
+
+fn read_err_class(e: &ReadError) -> String {
+    match e {
+        ReadError::UnexpectedKind { actual, .. } => format!("UnexpectedKind:{:?}", actual),
+        ow => variant_name(&format!("{:?}", ow)),
+    }
+}
+
+/// Names of the top-level fields in which two values of a battery type differ (from the pretty
+/// `Debug` form), so that "read back something else" findings on the same type but in different
+/// fields get different signatures.
+fn differing_fields<T: Debug>(want: &T, got: &T) -> String {
+    fn chunks(s: &str) -> Vec<(String, String)> {
+        let mut out: Vec<(String, String)> = vec![];
+        for line in s.lines() {
+            let top = line.starts_with("    ") && !line.starts_with("     ") && !matches!(line.trim().chars().next(), Some(']') | Some('}') | Some(')'));
+            if top || out.is_empty() {
+                let name = line.trim().split(':').next().unwrap_or("").trim_end_matches(',').to_string();
+                out.push((name, line.to_string()));
+            } else if let Some(last) = out.last_mut() {
+                last.1.push_str(line);
+            }
+        }
+        out
+    }
+    let (w, g) = (chunks(&format!("{:#?}", want)), chunks(&format!("{:#?}", got)));
+    if w.len() != g.len() || w.first().map(|c| &c.0) != g.first().map(|c| &c.0) {
+        return "variant".to_string();
+    }
+    let mut names = vec![];
+    for (i, (a, b)) in w.iter().zip(g.iter()).enumerate().skip(1) {
+        if a.1 != b.1 {
+            let n = &a.0;
+            let is_ident = !n.is_empty() && n.chars().all(|c| c.is_alphanumeric() || c == '_');
+            names.push(if is_ident { n.clone() } else { format!("#{}", i - 1) });
+        }
+    }
+    if names.is_empty() { "?".to_string() } else { names.join("+") }
+}
+
+fn got_class<T: Debug + PartialEq>(want: &T, r: &Out<T>) -> String {
+    match r {
+        Out::Ok(t) => format!("Ok(different:{})", differing_fields(want, t)),
+        ow => ow.class(),
+    }
+}
+
+fn parse_err_class(e: &ParseError) -> String {
+    match e {
+        ParseError::Syntax { .. } => "Syntax".into(),
+        ParseError::Structure(r) => read_err_class(r),
+        ParseError::InvalidEventStream => "InvalidEventStream".into(),
+    }
+}
+
+fn mp_err_class(e: &MsgPackReadError) -> String {
+    match e {
+        MsgPackReadError::Structure(r) => read_err_class(r),
+        ow => format!("MsgPack::{}", variant_name(&format!("{:?}", ow))),
+    }
+}
+
+fn guard<R>(f: impl FnOnce() -> R) -> Result<R, String> {
+    catch_unwind(AssertUnwindSafe(f)).map_err(|e| {
+        if let Some(s) = e.downcast_ref::<&str>() {
+            s.to_string()
+        } else if let Some(s) = e.downcast_ref::<String>() {
+            s.clone()
+        } else {
+            "panic".to_string()
+        }
+    })
+}
+
+fn from_read<T>(r: Result<Result<T, ReadError>, String>) -> Out<T> {
+    match r {
+        Ok(Ok(t)) => Out::Ok(t),
+        Ok(Err(e)) => Out::Err(read_err_class(&e), format!("{:?}", e)),
+        Err(p) => Out::Panic(p),
+    }
+}
+
+fn from_parse<T>(r: Result<Result<T, ParseError>, String>) -> Out<T> {
+    match r {
+        Ok(Ok(t)) => Out::Ok(t),
+        Ok(Err(e)) => Out::Err(parse_err_class(&e), format!("{:?}", e)),
+        Err(p) => Out::Panic(p),
+    }
+}
+
+fn from_mp<T>(r: Result<Result<T, MsgPackReadError>, String>) -> Out<T> {
+    match r {
+        Ok(Ok(t)) => Out::Ok(t),
+        Ok(Err(e)) => Out::Err(mp_err_class(&e), format!("{:?}", e)),
+        Err(p) => Out::Panic(p),
+    }
+}
+
+// ---------------------------------------------------------------------------------- findings
+
+/// Collects findings, keeping for every signature the smallest witness (size, then tie-break
+/// text), so the reported case is minimal and independent of thread interleaving.
+struct Sink {
+    found: Mutex<BTreeMap<String, (usize, String, &'static str, serde_json::Value)>>,
+}
+
+impl Sink {
+    fn new() -> Sink {
+        Sink { found: Mutex::new(BTreeMap::new()) }
+    }
+    fn report(&self, leg: &'static str, sig: String, size: usize, tie: &str, detail: serde_json::Value) {
+        let mut f = self.found.lock().unwrap();
+        match f.get(&sig) {
+            Some((s, t, _, _)) if (*s, t.as_str()) <= (size, tie) => {}
+            _ => {
+                f.insert(sig, (size, tie.to_string(), leg, detail));
+            }
+        }
+    }
+}
+
+/// Sharded set of 128-bit hashes of (type, input) pairs already evaluated.
+struct Seen {
+    shards: Vec<Mutex<HashSet<u128>>>,
+}
+
+impl Seen {
+    fn new() -> Seen {
+        Seen { shards: (0..256).map(|_| Mutex::new(HashSet::new())).collect() }
+    }
+    /// true if (ti, data) was not seen before.
+    fn insert(&self, ti: usize, data: &[u8]) -> bool {
+        let mut h1: u64 = 0xcbf29ce484222325 ^ (ti as u64).wrapping_mul(0x9e3779b97f4a7c15);
+        let mut h2: u64 = 0x84222325cbf29ce4 ^ (ti as u64).wrapping_mul(0xc2b2ae3d27d4eb4f);
+        for b in data {
+            h1 = (h1 ^ *b as u64).wrapping_mul(0x100000001b3);
+            h2 = (h2.rotate_left(5) ^ *b as u64).wrapping_mul(0x9e3779b97f4a7c15);
+        }
+        let k = ((h1 as u128) << 64) | h2 as u128;
+        self.shards[(h1 >> 56) as usize].lock().unwrap().insert(k)
+    }
+}
+
+#[derive(Default)]
+struct Counters {
+    model_evals: AtomicU64,
+    model_calls: AtomicU64,
+    recon_evals: AtomicU64,
+    recon_calls: AtomicU64,
+    mp_evals: AtomicU64,
+    mp_calls: AtomicU64,
+    mp_chunkings: AtomicU64,
+    mp_prefixes: AtomicU64,
+    mp_nontrivial: AtomicU64,
+    text_evals: AtomicU64,
+    text_calls: AtomicU64,
+    text_accept_any: AtomicU64,
+    text_accept_both: AtomicU64,
+    text_accept_mutated: AtomicU64,
+    mpm_evals: AtomicU64,
+    mpm_calls: AtomicU64,
+    mpm_accept_any: AtomicU64,
+}
+
+fn add(c: &AtomicU64, n: u64) {
+    c.fetch_add(n, Ordering::Relaxed);
+}
+
+// ---------------------------------------------------------------------------------- msgpack helpers
+
+fn mp_write<W: StructuralWritable>(x: &W) -> Result<Vec<u8>, String> {
+    match guard(|| {
+        let mut buf: Vec<u8> = Vec::new();
+        let r = x.write_with(MsgPackInterpreter::new(&mut buf));
+        r.map(|_| buf).map_err(|e| format!("{:?}", e))
+    }) {
+        Ok(Ok(b)) => Ok(b),
+        Ok(Err(e)) => Err(format!("Err({})", e)),
+        Err(p) => Err(format!("PANIC({})", p)),
+    }
+}
+
+/// A `Buf` made of several segments (what a reader sees when a frame arrives in pieces and is
+/// handed over as a chain).
+struct SegBuf<'a> {
+    segs: Vec<&'a [u8]>,
+    cur: usize,
+    off: usize,
+}
+
+impl<'a> SegBuf<'a> {
+    fn new(data: &'a [u8], cuts: &[usize]) -> SegBuf<'a> {
+        let segs = vcommon::cuts::split(data, cuts);
+        let mut b = SegBuf { segs, cur: 0, off: 0 };
+        b.skip_empty();
+        b
+    }
+    fn skip_empty(&mut self) {
+        while self.cur < self.segs.len() && self.off >= self.segs[self.cur].len() {
+            self.cur += 1;
+            self.off = 0;
+        }
+    }
+}
+
+impl<'a> Buf for SegBuf<'a> {
+    fn remaining(&self) -> usize {
+        if self.cur >= self.segs.len() {
+            0
+        } else {
+            self.segs[self.cur].len() - self.off + self.segs[self.cur + 1..].iter().map(|s| s.len()).sum::<usize>()
+        }
+    }
+    fn chunk(&self) -> &[u8] {
+        if self.cur >= self.segs.len() {
+            &[]
+        } else {
+            &self.segs[self.cur][self.off..]
+        }
+    }
+    fn advance(&mut self, mut cnt: usize) {
+        assert!(cnt <= self.remaining(), "advance past the end of SegBuf");
+        while cnt > 0 {
+            let here = self.segs[self.cur].len() - self.off;
+            if cnt < here {
+                self.off += cnt;
+                cnt = 0;
+            } else {
+                cnt -= here;
+                self.cur += 1;
+                self.off = 0;
+            }
+        }
+        self.skip_empty();
+    }
+}
+
+fn mp_read<T: Form>(bytes: &[u8], cuts: &[usize]) -> (Out<T>, usize) {
+    let mut left = 0usize;
+    let r = guard(|| {
+        let mut b = SegBuf::new(bytes, cuts);
+        let r = read_from_msg_pack::<T, _>(&mut b);
+        left = b.remaining();
+        r
+    });
+    (from_mp(r), left)
+}
+
+fn hex(b: &[u8]) -> String {
+    b.iter().map(|x| format!("{:02x}", x)).collect()
+}
+
+fn unhex(s: &str) -> Vec<u8> {
+    (0..s.len() / 2).map(|i| u8::from_str_radix(&s[2 * i..2 * i + 2], 16).unwrap()).collect()
+}
+
+// ---------------------------------------------------------------------------------- per-type engine
+
+struct TextResult {
+    accept_direct: bool,
+    accept_model: bool,
+}
+
+trait TypeDyn: Sync + Send {
+    fn name(&self) -> &'static str;
+    fn covers(&self) -> &'static str;
+    fn count(&self) -> usize;
+    fn describe(&self, i: usize) -> String;
+    fn value(&self, i: usize) -> Value;
+    fn compact(&self, i: usize) -> &str;
+    fn printed(&self, i: usize) -> Vec<String>;
+    fn check_instance(&self, i: usize, tier: &str, sink: &Sink, c: &Counters);
+    fn check_text(&self, text: &str, origin: &dyn Fn() -> String, sink: &Sink, c: &Counters) -> TextResult;
+    fn check_msgpack_bytes(&self, bytes: &[u8], origin: &dyn Fn() -> String, sink: &Sink, c: &Counters);
+}
+
+struct Holder<T: Battery> {
+    inst: Vec<T>,
+    compact: Vec<String>,
+}
+
+fn print3<W: StructuralWritable>(x: &W) -> Result<Vec<(&'static str, String)>, String> {
+    guard(|| {
+        vec![
+            ("standard", format!("{}", print_recon(x))),
+            ("compact", format!("{}", print_recon_compact(x))),
+            ("pretty", format!("{}", print_recon_pretty(x))),
+        ]
+    })
+}
+
+impl<T: Battery> Holder<T> {
+    fn new(p: &Pools, cap: usize) -> Holder<T> {
+        let inst = T::instances(p);
+        let mut keyed: Vec<(usize, String, T)> = inst
+            .into_iter()
+            .map(|x| {
+                let s = guard(|| format!("{}", print_recon_compact(&x))).unwrap_or_else(|_| format!("{:?}", x));
+                (s.len(), s, x)
+            })
+            .collect();
+        // smallest first; HashMap-bearing instances may print in either order, the sort key is
+        // only used for ordering.
+        keyed.sort_by(|a, b| (a.0, &a.1).cmp(&(b.0, &b.1)));
+        keyed.dedup_by(|a, b| a.2 == b.2);
+        keyed.truncate(cap);
+        let compact = keyed.iter().map(|k| k.1.clone()).collect();
+        let inst = keyed.into_iter().map(|k| k.2).collect();
+        Holder { inst, compact }
+    }
+}
+
+impl<T: Battery> TypeDyn for Holder<T> {
+    fn name(&self) -> &'static str {
+        T::NAME
+    }
+    fn covers(&self) -> &'static str {
+        T::COVERS
+    }
+    fn count(&self) -> usize {
+        self.inst.len()
+    }
+    fn describe(&self, i: usize) -> String {
+        format!("{:?}", self.inst[i])
+    }
+    fn value(&self, i: usize) -> Value {
+        self.inst[i].as_value()
+    }
+    fn compact(&self, i: usize) -> &str {
+        &self.compact[i]
+    }
+    fn printed(&self, i: usize) -> Vec<String> {
+        print3(&self.inst[i]).map(|v| v.into_iter().map(|p| p.1).collect()).unwrap_or_default()
+    }
+
+    fn check_instance(&self, i: usize, tier: &str, sink: &Sink, c: &Counters) {
+        let x = &self.inst[i];
+        let want = x.normal();
+        let size = self.compact[i].len();
+        let tie = self.compact[i].clone();
+        let base = |law: &str, extra: serde_json::Value| {
+            json!({"kind": "instance", "type": T::NAME, "tier": tier, "index": i, "instance": format!("{:?}", x),
+                   "law": law, "expected": format!("Ok({:?})", want), "observed": extra,
+                   "what": format!("{} violated for an instance of battery type {} ({})", law, T::NAME, T::COVERS),
+                   "input": format!("{:?}", x)})
+        };
+
+        // ---- model
+        add(&c.model_evals, 1);
+        let v = match guard(|| x.as_value()) {
+            Ok(v) => v,
+            Err(p) => {
+                sink.report("model", format!("type={} law=no_panic op=as_value", T::NAME), size, &tie, base("no_panic", json!(p)));
+                return;
+            }
+        };
+        match guard(|| x.clone().into_value()) {
+            Ok(v2) => {
+                if v2 != v {
+                    sink.report(
+                        "model",
+                        format!("type={} law=into_value_eq_as_value", T::NAME),
+                        size,
+                        &tie,
+                        base("into_value_eq_as_value", json!({"as_value": format!("{:?}", v), "into_value": format!("{:?}", v2)})),
+                    );
+                }
+            }
+            Err(p) => sink.report("model", format!("type={} law=no_panic op=into_value", T::NAME), size, &tie, base("no_panic", json!(p))),
+        }
+        let r1 = from_read(guard(|| T::try_from_value(&v)));
+        let r2 = from_read(guard(|| T::try_convert(v.clone())));
+        add(&c.model_calls, 4);
+        for (via, r) in [("try_from_value", &r1), ("try_convert", &r2)] {
+            if *r != Out::Ok(want.clone()) {
+                let got = got_class(&want, r);
+                sink.report(
+                    "model",
+                    format!("type={} law=model_roundtrip via={} got={}", T::NAME, via, got),
+                    size,
+                    &tie,
+                    base("model_roundtrip", json!({"via": via, "value": format!("{:?}", v), "got": r.show()})),
+                );
+            }
+        }
+
+        // ---- recon print / parse
+        add(&c.recon_evals, 1);
+        match print3(x) {
+            Err(p) => sink.report("recon", format!("type={} law=no_panic op=print_recon", T::NAME), size, &tie, base("no_panic", json!(p))),
+            Ok(texts) => {
+                let mut bad: Vec<(&str, String, String, String)> = vec![];
+                for (style, s) in &texts {
+                    add(&c.recon_calls, 1);
+                    let r = from_parse(guard(|| parse_recognize::<T>(s.as_str(), false)));
+                    if r != Out::Ok(want.clone()) {
+                        let got = got_class(&want, &r);
+                        bad.push((style, s.clone(), got, r.show()));
+                    }
+                }
+                if !bad.is_empty() {
+                    let all_same = bad.len() == texts.len() && bad.iter().all(|b| b.2 == bad[0].2);
+                    if all_same {
+                        sink.report(
+                            "recon",
+                            format!("type={} law=recon_roundtrip printer=any got={}", T::NAME, bad[0].2),
+                            size,
+                            &tie,
+                            base("recon_roundtrip", json!({"text": bad[0].1, "got": bad[0].3})),
+                        );
+                    } else {
+                        for b in &bad {
+                            sink.report(
+                                "recon",
+                                format!("type={} law=recon_roundtrip printer={} got={}", T::NAME, b.0, b.2),
+                                size,
+                                &tie,
+                                base("recon_roundtrip", json!({"text": b.1, "got": b.3})),
+                            );
+                        }
+                    }
+                }
+            }
+        }
+
+        // ---- msgpack
+        add(&c.mp_evals, 1);
+        let bytes = match mp_write(x) {
+            Ok(b) => b,
+            Err(e) => {
+                sink.report(
+                    "msgpack",
+                    format!("type={} law=msgpack_write got={}", T::NAME, variant_name(&e)),
+                    size,
+                    &tie,
+                    base("msgpack_write", json!(e)),
+                );
+                return;
+            }
+        };
+        if bytes.len() > 3 {
+            add(&c.mp_nontrivial, 1);
+        }
+        let (whole, left) = mp_read::<T>(&bytes, &[]);
+        add(&c.mp_calls, 2);
+        if whole != Out::Ok(want.clone()) || left != 0 {
+            let got = if whole == Out::Ok(want.clone()) { "Ok(unconsumed)".to_string() } else { got_class(&want, &whole) };
+            sink.report(
+                "msgpack",
+                format!("type={} law=msgpack_roundtrip got={}", T::NAME, got),
+                size,
+                &tie,
+                base("msgpack_roundtrip", json!({"bytes": hex(&bytes), "got": whole.show(), "unconsumed": left})),
+            );
+        }
+        // direct vs via the model, on the typed encoding
+        self.check_msgpack_bytes(&bytes, &|| format!("typed encoding of instance {:?}", x), sink, c);
+        // the model's own encoding must read back as the instance too
+        match mp_write(&v) {
+            Err(e) => sink.report(
+                "msgpack",
+                format!("type={} law=msgpack_write_model got={}", T::NAME, variant_name(&e)),
+                size,
+                &tie,
+                base("msgpack_write_model", json!(e)),
+            ),
+            Ok(vb) => {
+                add(&c.mp_calls, 2);
+                let (r, left) = mp_read::<T>(&vb, &[]);
+                if r != Out::Ok(want.clone()) || left != 0 {
+                    let got = got_class(&want, &r);
+                    sink.report(
+                        "msgpack",
+                        format!("type={} law=msgpack_model_encoding_roundtrip got={}", T::NAME, got),
+                        size,
+                        &tie,
+                        base("msgpack_model_encoding_roundtrip", json!({"bytes": hex(&vb), "value": format!("{:?}", v), "got": r.show()})),
+                    );
+                }
+            }
+        }
+        // every segmentation gives what the contiguous buffer gives
+        let n = bytes.len();
+        for cuts in vcommon::cuts::chunkings(n, 2, 64) {
+            if cuts.is_empty() {
+                continue;
+            }
+            add(&c.mp_chunkings, 1);
+            add(&c.mp_calls, 1);
+            let (r, l) = mp_read::<T>(&bytes, &cuts);
+            if r != whole || l != left {
+                let got = if r.is_ok() { "Ok(different)".to_string() } else { r.class() };
+                sink.report(
+                    "msgpack",
+                    format!("type={} law=msgpack_segmented_buf_same_result contiguous={} got={}", T::NAME, whole.class(), got),
+                    size * 1000 + cuts.len(),
+                    &tie,
+                    base("msgpack_segmented_buf_same_result", json!({"bytes": hex(&bytes), "cuts": cuts, "contiguous": whole.show(), "got": r.show()})),
+                );
+                break;
+            }
+        }
+        // every strict prefix is rejected, without panicking
+        for k in 0..n {
+            add(&c.mp_prefixes, 1);
+            add(&c.mp_calls, 1);
+            let (r, _) = mp_read::<T>(&bytes[..k], &[]);
+            match &r {
+                Out::Err(..) => {}
+                ow => {
+                    let got = if ow.is_ok() { "Ok".to_string() } else { "PANIC".to_string() };
+                    sink.report(
+                        "msgpack",
+                        format!("type={} law=msgpack_truncated_input_rejected got={}", T::NAME, got),
+                        size * 1000 + k,
+                        &tie,
+                        base("msgpack_truncated_input_rejected", json!({"bytes": hex(&bytes), "prefix_len": k, "got": r.show()})),
+                    );
+                    break;
+                }
+            }
+        }
+    }
+
+    fn check_text(&self, text: &str, origin: &dyn Fn() -> String, sink: &Sink, c: &Counters) -> TextResult {
+        add(&c.text_evals, 1);
+        add(&c.text_calls, 2);
+        let direct: Out<T> = from_parse(guard(|| parse_recognize::<T>(text, false)));
+        let parsed: Out<Value> = from_parse(guard(|| parse_recognize::<Value>(text, false)));
+        let detail = |law: &str, d: String, m: String| {
+            json!({"kind": "text", "type": T::NAME, "text": text, "origin": origin(), "law": law,
+                   "direct": d, "via_model": m,
+                   "what": format!("{}: reading battery type {} ({}) directly from Recon text and via the Value model disagree", law, T::NAME, T::COVERS),
+                   "input": text})
+        };
+        let model: Out<T> = match &parsed {
+            Out::Ok(v) => {
+                add(&c.text_calls, 2);
+                let m1 = from_read(guard(|| T::try_from_value(v)));
+                let m2 = from_read(guard(|| T::try_convert(v.clone())));
+                if m1 != m2 {
+                    sink.report(
+                        "agree",
+                        format!("type={} law=try_convert_eq_try_from_value from_value={} convert={}", T::NAME, m1.class(), m2.class()),
+                        text.len(),
+                        text,
+                        detail("try_convert_eq_try_from_value", m1.show(), m2.show()),
+                    );
+                }
+                m1
+            }
+            Out::Err(cl, full) => Out::Err(cl.clone(), full.clone()),
+            Out::Panic(p) => Out::Panic(p.clone()),
+        };
+        for (which, o) in [("direct", direct.class()), ("model", model.class())] {
+            if o == "PANIC" {
+                sink.report(
+                    "agree",
+                    format!("type={} law=no_panic path={}", T::NAME, which),
+                    text.len(),
+                    text,
+                    detail("no_panic", direct.show(), model.show()),
+                );
+            }
+        }
+        let agree = match (&direct, &model) {
+            (Out::Ok(a), Out::Ok(b)) => a == b,
+            (Out::Ok(_), _) | (_, Out::Ok(_)) => false,
+            _ => true,
+        };
+        if !agree {
+            let (d, m) = match (&direct, &model) {
+                (Out::Ok(a), Out::Ok(b)) => ("Ok".to_string(), format!("Ok(different:{})", differing_fields(a, b))),
+                _ => (direct.class(), model.class()),
+            };
+            sink.report(
+                "agree",
+                format!("type={} law=recon_direct_eq_via_model direct={} model={}", T::NAME, d, m),
+                text.len(),
+                text,
+                detail("recon_direct_eq_via_model", direct.show(), model.show()),
+            );
+        }
+        TextResult { accept_direct: direct.is_ok(), accept_model: model.is_ok() }
+    }
+
+    fn check_msgpack_bytes(&self, bytes: &[u8], origin: &dyn Fn() -> String, sink: &Sink, c: &Counters) {
+        add(&c.mpm_evals, 1);
+        add(&c.mpm_calls, 2);
+        let (direct, _) = mp_read::<T>(bytes, &[]);
+        let (parsed, _) = mp_read::<Value>(bytes, &[]);
+        let model: Out<T> = match &parsed {
+            Out::Ok(v) => {
+                add(&c.mpm_calls, 1);
+                from_read(guard(|| T::try_from_value(v)))
+            }
+            Out::Err(cl, full) => Out::Err(cl.clone(), full.clone()),
+            Out::Panic(p) => Out::Panic(p.clone()),
+        };
+        if direct.is_ok() || model.is_ok() {
+            add(&c.mpm_accept_any, 1);
+        }
+        let agree = match (&direct, &model) {
+            (Out::Ok(a), Out::Ok(b)) => a == b,
+            (Out::Ok(_), _) | (_, Out::Ok(_)) => false,
+            (Out::Panic(_), _) | (_, Out::Panic(_)) => false,
+            _ => true,
+        };
+        if !agree {
+            let (d, m) = match (&direct, &model) {
+                (Out::Ok(a), Out::Ok(b)) => ("Ok".to_string(), format!("Ok(different:{})", differing_fields(a, b))),
+                _ => (direct.class(), model.class()),
+            };
+            let h = hex(bytes);
+            sink.report(
+                "msgpack_agree",
+                format!("type={} law=msgpack_direct_eq_via_model direct={} model={}", T::NAME, d, m),
+                bytes.len(),
+                &h,
+                json!({"kind": "msgpack_bytes", "type": T::NAME, "hex": h, "origin": origin(), "law": "msgpack_direct_eq_via_model",
+                       "direct": direct.show(), "via_model": model.show(), "as_value": parsed.show(),
+                       "what": format!("reading battery type {} ({}) directly from MessagePack and via the Value model disagree", T::NAME, T::COVERS),
+                       "input": h}),
+            );
+        }
+    }
+}
+
+macro_rules! registry {
+    ($p:expr, $cap:expr; $($t:ty),* $(,)?) => {
+        vec![$(Box::new(Holder::<$t>::new($p, $cap)) as Box<dyn TypeDyn>),*]
+    };
+}
+
+fn registry(p: &Pools, cap: usize) -> Vec<Box<dyn TypeDyn>> {
+    registry!(p, cap;
+        Unit0, UnitTagged, Tup1, NewT, NewRec, Tup2, TupSkip, TupHdr, TupRen,
+        Named, Renamed, ConvNames,
+        Hdr1, Hdr2, Hdr2Same, HdrBody, HdrBodySlots, HdrVec, HdrRec,
+        Attr1, Attr2, Body1, BodyRec, BodyVec, BodyMap, BodyOpt, BodyBlob, BodyBig,
+        Opts, OptHdr, OptHdrBody, Colls, AttrColls, IntMap, Prims, Bigs,
+        Gen<i32>, Gen<Named>, Gen<Vec<String>>, GenBody<E1>, Nest1, Nest2, VecStruct,
+        E1, E2, Tagged, EnumHolder,
+    )
+}
+
+// ---------------------------------------------------------------------------------- main
+
 fn main() {
-    vcommon::machinery_failure("C16: engine not built yet");
+    std::panic::set_hook(Box::new(|_| {}));
+    let ctx = Ctx::from_env("C16");
+    let sink = Sink::new();
+    let counters = Counters::default();
+
+    if let Some(r) = ctx.replay_request() {
+        let d = r["detail"].clone();
+        let tname = d["type"].as_str().unwrap_or("").to_string();
+        let thorough = d["tier"].as_str() == Some("thorough");
+        let reg = registry(&Pools, usize::MAX);
+        let Some(t) = reg.iter().find(|t| t.name() == tname) else {
+            vcommon::machinery_failure(&format!("replay: unknown battery type {}", tname));
+        };
+        match d["kind"].as_str() {
+            Some("instance") => {
+                let want = d["instance"].as_str().unwrap_or("");
+                let idx = (0..t.count()).find(|i| t.describe(*i) == want);
+                match idx {
+                    Some(i) => t.check_instance(i, if thorough { "thorough" } else { "quick" }, &sink, &counters),
+                    None => vcommon::machinery_failure("replay: instance not found in the battery"),
+                }
+            }
+            Some("text") => {
+                t.check_text(d["text"].as_str().unwrap_or(""), &|| "replay".to_string(), &sink, &counters);
+            }
+            Some("msgpack_bytes") => {
+                t.check_msgpack_bytes(&unhex(d["hex"].as_str().unwrap_or("")), &|| "replay".to_string(), &sink, &counters);
+            }
+            _ => vcommon::machinery_failure("replay: unknown kind"),
+        }
+        let want_sig = r["signature"].as_str().unwrap_or("").to_string();
+        let found = sink.found.into_inner().unwrap();
+        let mut reproduced = false;
+        for (sig, (_, _, leg, detail)) in found {
+            if sig == want_sig {
+                reproduced = true;
+            }
+            ctx.violation(leg, &sig, detail);
+        }
+        eprintln!("replay: signature {} {}", want_sig, if reproduced { "REPRODUCED" } else { "not reproduced" });
+        ctx.finish("model_checking", "replay");
+    }
+
+    let thorough = !ctx.quick();
+    let tier = ctx.tier.name();
+    let pools = Pools;
+    let cap = 10_000usize;
+    let t_build = Instant::now();
+    let reg = registry(&pools, cap);
+    let ntypes = reg.len();
+    let total_inst: usize = reg.iter().map(|t| t.count()).sum();
+    eprintln!("[C16] battery: {} types, {} instances ({:.1}s)", ntypes, total_inst, t_build.elapsed().as_secs_f64());
+
+    // ------------------------------------------------ legs 1-3: per-instance laws
+    let t0 = Instant::now();
+    let mut work: Vec<(usize, usize)> = vec![];
+    for (ti, t) in reg.iter().enumerate() {
+        for i in 0..t.count() {
+            work.push((ti, i));
+        }
+    }
+    // interleave so that threads get a mix of types
+    work.sort_by_key(|(ti, i)| (*i, *ti));
+    vcommon::par_map(&work, vcommon::ncpu(), |_, &(ti, i)| {
+        reg[ti].check_instance(i, tier, &sink, &counters);
+    });
+    let wall_inst = t0.elapsed().as_secs_f64();
+    let ld = |c: &AtomicU64| c.load(Ordering::Relaxed);
+    let per_type: Vec<serde_json::Value> = reg.iter().map(|t| json!({"type": t.name(), "covers": t.covers(), "instances": t.count()})).collect();
+    let sample_inst = |k: usize| -> serde_json::Value {
+        let t = &reg[k % ntypes];
+        let i = t.count() - 1;
+        json!({"type": t.name(), "instance": t.describe(i), "recon": t.compact(i)})
+    };
+    ctx.add_leg(Leg {
+        name: "model_roundtrip".into(),
+        engine: "E4-enum".into(),
+        states: total_inst as u64,
+        transitions: ld(&counters.model_calls),
+        evaluations: ld(&counters.model_evals),
+        distinct_nontrivial: reg.iter().map(|t| (0..t.count()).filter(|i| matches!(t.value(*i), Value::Record(a, _) if !a.is_empty())).count() as u64).sum(),
+        rule: "every instance of every battery type: as_value / into_value / try_from_value / try_convert; non-trivial = instances whose model is a record with at least one attribute".into(),
+        samples: vec![sample_inst(12), sample_inst(21), sample_inst(44)],
+        exhaustive: true,
+        bounds: json!({"types": ntypes, "instances": total_inst, "per_type_cap": cap, "battery": per_type}),
+        wall_s: wall_inst / 3.0,
+    });
+    ctx.add_leg(Leg {
+        name: "recon_roundtrip".into(),
+        engine: "E4-enum".into(),
+        states: total_inst as u64,
+        transitions: ld(&counters.recon_calls),
+        evaluations: ld(&counters.recon_evals) * 3,
+        distinct_nontrivial: (0..ntypes).map(|k| (0..reg[k].count()).filter(|i| reg[k].compact(*i).contains('(')).count() as u64).sum(),
+        rule: "every instance printed with print_recon / print_recon_compact / print_recon_pretty and read back with parse_recognize::<T>; non-trivial = printed form has an attribute with a body".into(),
+        samples: vec![sample_inst(15), sample_inst(30)],
+        exhaustive: true,
+        bounds: json!({"types": ntypes, "instances": total_inst, "printers": 3}),
+        wall_s: wall_inst / 3.0,
+    });
+    ctx.add_leg(Leg {
+        name: "msgpack".into(),
+        engine: "E4-enum+cuts".into(),
+        states: total_inst as u64,
+        transitions: ld(&counters.mp_calls),
+        evaluations: ld(&counters.mp_evals) + ld(&counters.mp_chunkings) + ld(&counters.mp_prefixes),
+        distinct_nontrivial: ld(&counters.mp_nontrivial),
+        rule: "every instance written with MsgPackInterpreter and read with read_from_msg_pack (typed encoding and the model's encoding), then re-read under every 1-cut and 2-cut (len<=64) segmentation of the buffer plus all-singletons, then every strict prefix; non-trivial = encodings longer than 3 bytes".into(),
+        samples: vec![json!({"segmentations": ld(&counters.mp_chunkings), "prefixes": ld(&counters.mp_prefixes)}), sample_inst(35)],
+        exhaustive: true,
+        bounds: json!({"instances": total_inst, "max_cuts": 2, "two_cut_limit_bytes": 64, "note": "read_from_msg_pack is one-shot (not resumable); segmentation is exercised through a multi-segment bytes::Buf"}),
+        wall_s: wall_inst / 3.0,
+    });
+
+    // ------------------------------------------------ legs 4/5: the two reading paths on a text set per type
+    // One work item per (type, instance), smallest instances first: its printed forms, every
+    // single-edit Value mutation (2 printers), every single-token mutation of its compact text;
+    // in the thorough tier additionally every *pair* of Value edits for the first `n_double`
+    // instances of each type. One more work item per type for the foreign texts. A text is
+    // evaluated once per type (global set of 128-bit text hashes).
+    let t1 = Instant::now();
+    let n_double = if thorough { 30usize } else { 0usize };
+    let n_subst = if thorough { usize::MAX } else { 30usize };
+    let n_single = if thorough { usize::MAX } else { 60usize };
+    let n_foreign = 40usize;
+    let wall_cap_s = if thorough { 720.0 } else { 45.0 };
+    let seen = Seen::new();
+    let stop = AtomicBool::new(false);
+    let items_done = AtomicU64::new(0);
+    let items_skipped = AtomicU64::new(0);
+    let foreign: Vec<Vec<String>> = reg
+        .iter()
+        .map(|t| (0..t.count().min(n_foreign)).flat_map(|i| t.printed(i).into_iter().take(1)).collect())
+        .collect();
+    // work: (type, Some(instance)) or (type, None) for the foreign texts
+    let mut twork: Vec<(usize, Option<usize>)> = (0..ntypes).map(|ti| (ti, None)).collect();
+    twork.extend(work.iter().map(|(ti, i)| (*ti, Some(*i))));
+    let eval_text = |ti: usize, text: &str, printed: bool, origin: &dyn Fn() -> String| {
+        if !seen.insert(ti, text.as_bytes()) {
+            return;
+        }
+        let r = reg[ti].check_text(text, origin, &sink, &counters);
+        if r.accept_direct || r.accept_model {
+            add(&counters.text_accept_any, 1);
+            if !printed {
+                add(&counters.text_accept_mutated, 1);
+            }
+        }
+        if r.accept_direct && r.accept_model {
+            add(&counters.text_accept_both, 1);
+        }
+    };
+    let eval_bytes = |ti: usize, bytes: &[u8], origin: &dyn Fn() -> String| {
+        if seen.insert(ti + 1000, bytes) {
+            reg[ti].check_msgpack_bytes(bytes, origin, &sink, &counters);
+        }
+    };
+    vcommon::par_map(&twork, vcommon::ncpu(), |_, &(ti, inst)| {
+        if stop.load(Ordering::Relaxed) {
+            items_skipped.fetch_add(1, Ordering::Relaxed);
+            return;
+        }
+        let t = &reg[ti];
+        match inst {
+            None => {
+                for (tj, f) in foreign.iter().enumerate() {
+                    if tj != ti {
+                        for s in f {
+                            eval_text(ti, s, false, &|| format!("printed form of an instance of foreign type {}", reg[tj].name()));
+                        }
+                    }
+                }
+            }
+            Some(i) => {
+                for (k, s) in t.printed(i).iter().enumerate() {
+                    eval_text(ti, s, true, &|| format!("printed form {} of instance {}", k, t.describe(i)));
+                }
+                if i >= n_single {
+                    items_done.fetch_add(1, Ordering::Relaxed);
+                    return;
+                }
+                let v = t.value(i);
+                let singles = mutate::value_mutations(&v, 2);
+                for (op, mv) in &singles {
+                    if let Ok(texts) = print3(mv) {
+                        for (style, s) in texts.iter().take(2) {
+                            eval_text(ti, s, false, &|| format!("Value edit {} of instance {} ({} printer)", op, t.describe(i), style));
+                        }
+                    }
+                    if let Ok(bytes) = mp_write(mv) {
+                        eval_bytes(ti, &bytes, &|| format!("Value edit {} of instance {}", op, t.describe(i)));
+                    }
+                }
+                for (op, s) in mutate::token_mutations(t.compact(i), i < n_subst) {
+                    eval_text(ti, &s, false, &|| format!("token edit {} of {}", op, t.compact(i)));
+                }
+                if i < n_double {
+                    for (op1, mv) in &singles {
+                        for (op2, mv2) in mutate::value_mutations(mv, 1) {
+                            if let Ok(s) = guard(|| format!("{}", print_recon_compact(&mv2))) {
+                                eval_text(ti, &s, false, &|| format!("Value edits {} then {} of instance {}", op1, op2, t.describe(i)));
+                            }
+                            if let Ok(bytes) = mp_write(&mv2) {
+                                eval_bytes(ti, &bytes, &|| format!("Value edits {} then {} of instance {}", op1, op2, t.describe(i)));
+                            }
+                        }
+                    }
+                }
+            }
+        }
+        items_done.fetch_add(1, Ordering::Relaxed);
+        if t1.elapsed().as_secs_f64() > wall_cap_s {
+            stop.store(true, Ordering::Relaxed);
+        }
+    });
+    let skipped = items_skipped.load(Ordering::Relaxed);
+    let wall_text = t1.elapsed().as_secs_f64();
+    let text_samples: Vec<serde_json::Value> = [3usize, 13, 28]
+        .iter()
+        .map(|k| {
+            let t = &reg[k % ntypes];
+            let i = t.count() / 2;
+            let ms = mutate::value_mutations(&t.value(i), 2);
+            let (op, mv) = &ms[ms.len() / 2];
+            json!({"type": t.name(), "text": format!("{}", print_recon_compact(mv)), "origin": format!("Value edit {} of instance {}", op, t.describe(i))})
+        })
+        .collect();
+    ctx.add_leg(Leg {
+        name: "recon_direct_vs_model".into(),
+        engine: "E4-enum".into(),
+        states: ld(&counters.text_evals),
+        transitions: ld(&counters.text_calls),
+        evaluations: ld(&counters.text_evals),
+        distinct_nontrivial: ld(&counters.text_accept_any),
+        rule: format!(
+            "per type, every distinct text of: 3 printed forms of every instance; 2 printed forms of every single-element Value edit (delete/duplicate/transpose/retag/rekey/unkey/replace/insert, nesting<=2) and every single-token deletion/duplication/transposition of the compact text of the first {} instances (smallest first); every single-token substitution (7 punctuation tokens, 3 literals) for the first {} instances; every pair of Value edits of the first {} instances; printed forms of the first {} instances of every other battery type. non-trivial = accepted by at least one reading path ({} accepted by both; {} of the accepted texts are edited or foreign)",
+            n_single.min(cap), n_subst.min(cap), n_double, n_foreign, ld(&counters.text_accept_both), ld(&counters.text_accept_mutated)
+        ),
+        samples: text_samples,
+        exhaustive: skipped == 0,
+        bounds: json!({"types": ntypes, "instances": total_inst, "double_edit_instances_per_type": n_double, "foreign_instances_per_type": n_foreign,
+                       "token_substitution_instances_per_type": n_subst.min(cap), "single_edit_instances_per_type": n_single.min(cap), "value_edit_depth": 2, "work_items_done": items_done.load(Ordering::Relaxed), "work_items_skipped_by_wall_cap": skipped,
+                       "wall_cap_s": wall_cap_s, "order": "instances smallest first, interleaved over types"}),
+        wall_s: wall_text * 0.7,
+    });
+    ctx.add_leg(Leg {
+        name: "msgpack_direct_vs_model".into(),
+        engine: "E4-enum".into(),
+        states: ld(&counters.mpm_evals),
+        transitions: ld(&counters.mpm_calls),
+        evaluations: ld(&counters.mpm_evals),
+        distinct_nontrivial: ld(&counters.mpm_accept_any),
+        rule: format!("distinct MessagePack encodings of every instance, of every single-element Value edit of the first {} instances per type and of every pair of edits of the first {}, read directly as T and as Value-then-T; non-trivial = accepted by at least one path", n_single.min(cap), n_double),
+        samples: vec![json!({"type": reg[9].name(), "bytes": mp_write(&reg[9].value(0)).map(|b| hex(&b)).unwrap_or_default()})],
+        exhaustive: skipped == 0,
+        bounds: json!({"double_edit_instances_per_type": n_double, "value_edit_depth": 2, "work_items_skipped_by_wall_cap": skipped}),
+        wall_s: wall_text * 0.3,
+    });
+
+    let found = sink.found.into_inner().unwrap();
+    for (sig, (_, _, leg, detail)) in found {
+        ctx.violation(leg, &sig, detail);
+    }
+    ctx.assume("a fixed battery of derived types stands for 'every type implementing Form'; field values come from small boundary pools");
+    ctx.assume("std HashMap iteration order is fixed by the detrand getrandom interposer (it only affects the order in which map entries are printed)");
+    ctx.assume("read_from_msg_pack is a one-shot reader over a Buf: 'chunking' is exercised as a multi-segment Buf, not as resumption");
+    ctx.finish(
+        "model_checking",
+        "bounded-exhaustive enumeration of all instances of a battery of Form-deriving types and of all single-edit mutations of their Recon texts, checking the conversion / recogniser / MessagePack round trips and the agreement of the two reading paths on the real implementation",
+    );
 }
